@@ -238,31 +238,31 @@ class Folder:
             l = self.fold(e.left, upto, env)
             r = self.fold(e.comparators[0], upto, env)
             op = e.ops[0]
+            import operator
+            table = {ast.In: lambda a, b: a in b, ast.NotIn: lambda a, b: a not in b, ast.Eq: operator.eq,
+                     ast.NotEq: operator.ne, ast.Lt: operator.lt, ast.LtE: operator.le, ast.Gt: operator.gt,
+                     ast.GtE: operator.ge, ast.Is: operator.is_, ast.IsNot: operator.is_not}
+            fn = table.get(type(op))
+            if fn is None:
+                raise Unknown('comparison operator %s' % type(op).__name__)
             try:
-                if isinstance(op, ast.In):
-                    return l in r
-                if isinstance(op, ast.NotIn):
-                    return l not in r
-                if isinstance(op, ast.Eq):
-                    return l == r
-                if isinstance(op, ast.NotEq):
-                    return l != r
-                if isinstance(op, ast.Lt):
-                    return l < r
-                if isinstance(op, ast.GtE):
-                    return l >= r
+                return fn(l, r)
             except Exception as ex:
                 raise Unknown(str(ex))
         if isinstance(e, ast.BoolOp):
-            vals = [self.fold(v, upto, env) for v in e.values]
+            # short-circuit, like the interpreter
             if isinstance(e.op, ast.And):
                 r = True
-                for v in vals:
-                    r = r and v
+                for v in e.values:
+                    r = self.fold(v, upto, env)
+                    if not r:
+                        return r
                 return r
             r = False
-            for v in vals:
-                r = r or v
+            for v in e.values:
+                r = self.fold(v, upto, env)
+                if r:
+                    return r
             return r
         if isinstance(e, ast.UnaryOp) and isinstance(e.op, ast.Not):
             return not self.fold(e.operand, upto, env)
